@@ -36,6 +36,7 @@ def run(ctx):
                         cnt[0] += 1
                         return (AH.point(rng, names, dim), {"charge": cnt[0] % 3 - 1, "w": 0.25 * cnt[0]})
                     for kind, struct in AH.layouts(rng, mk, deep):
+                        AH.next_spelling()
                         recs = AH.lmap(lambda pe: AH.rec(names, pe[0], mom, pe[1]), struct)
                         objs = AH.lmap(lambda pe: H.obj(vector, names, pe[0], momentum=mom), struct)
                         extras = AH.lmap(lambda pe: pe[1], struct)
@@ -88,6 +89,41 @@ def run(ctx):
                                 d = AH.compare_nested(got, want)
                                 if d:
                                     ctx.fail(f"{site0}:{nm}", f"at {d[0]}: {d[1]}", {"records": recs})
+                        # ---- the same array built WITHOUT vector.Array: ak.Array(..., with_name="MomentumND") keeps the momentum
+                        # spellings (px, py, pt, pz, E, mass) as field names; results must have the same dimension, the same
+                        # vector and the same extras, and no coordinate may appear twice (fresh under its generic name + stale)
+                        if mom and kind in ("flat", "jagged", "option_list"):
+                            try:
+                                Araw = ak.Array(recs, with_name=f"Momentum{dim}D", behavior=vector.backends.awkward.behavior)
+                            except Exception as e:
+                                Araw = None
+                                ctx.fail(f"awkward-raw:{kind}:{dim}D:{sysn}:construct", f"ak.Array(with_name) raises {type(e).__name__}: {e}"[:200], {"records": recs})
+                            for nm, (mind, f) in (AH.UNARY.items() if Araw is not None else ()):
+                                if mind > dim:
+                                    continue
+                                n += 1
+                                distinct.add((kind + ":raw", nm, sysn, mom))
+                                wobj = AH.lmap(f, objs)
+                                want = AH.lmap(AH.leaf_value, wobj)
+                                try:
+                                    r = f(Araw)
+                                except Exception as e:
+                                    ctx.fail(f"awkward-raw:{kind}:{dim}D:{sysn}:{nm}", f"raises {type(e).__name__}: {e}"[:200], {"records": recs})
+                                    continue
+                                if _first_leaf(wobj) is not None and isinstance(_first_leaf(wobj), vector._methods.Vector):
+                                    got = AH.lmap(_generic_names, AH.ak_to_leaves(r, True))
+                                    want_full = AH.lzip(lambda w, e: dict(w, **{k: (float(v) if isinstance(v, float) else v) for k, v in e.items()}), want, extras)
+                                    d = AH.compare_nested(_floatify(got), _floatify(want_full))
+                                    wdim = len(AH.vec_fields(_first_leaf(wobj)))
+                                    gdim = {"2": 2, "3": 3, "4": 4}.get(type(r).__name__[-2:-1]) if isinstance(r, ak.Array) else None
+                                    if d:
+                                        ctx.fail(f"awkward-raw:{kind}:{dim}D:{sysn}:{nm}", f"at {d[0]}: {d[1]} (fields of the result: {ak.fields(r)})", {"records": recs})
+                                    elif gdim is not None and gdim != wdim:
+                                        ctx.fail(f"awkward-raw:{kind}:{dim}D:{sysn}:{nm}:dimension", f"result class {type(r).__name__}, the object result is {wdim}D", {"records": recs})
+                                else:
+                                    d = AH.compare_nested(AH.ak_to_leaves(r, False), want)
+                                    if d:
+                                        ctx.fail(f"awkward-raw:{kind}:{dim}D:{sysn}:{nm}", f"at {d[0]}: {d[1]}", {"records": recs})
                         # ---- binary with an array of the same structure, and broadcasting an object / record
                         for nm, (da, db, f) in AH.BINARY.items():
                             if (da or dim) != dim:
@@ -140,6 +176,22 @@ def run(ctx):
     ctx.coverage["distinct_nontrivial"] = len(distinct)
     ctx.coverage["samples"] = samples
     ctx.coverage["correspondences"] = {"awkward layouts: structure, values, extra fields vs lmap/lzip of object results": {"ok": not ctx.failures}}
+
+
+_GENERIC = {"px": "x", "py": "y", "pt": "rho", "pz": "z", "E": "t", "e": "t", "energy": "t", "M": "tau", "m": "tau", "mass": "tau"}
+
+
+def _generic_names(leaf):
+    """a result record with momentum-spelled fields under the generic names; a coordinate present twice is reported"""
+    if not isinstance(leaf, dict):
+        return leaf
+    out = {}
+    for k, v in leaf.items():
+        g = _GENERIC.get(k, k)
+        if g in out:
+            return {"__coordinate_twice__": sorted(leaf)}
+        out[g] = v
+    return out
 
 
 def _first_leaf(t):
